@@ -147,7 +147,7 @@ fn run_mix(cx: &mut CaseCx, case: &Value) {
 /// every neighbouring measurement under A's epoch, and of neighbouring thresholds).
 fn run_neighbour_contexts(cx: &mut CaseCx, case: &Value) {
   let t = case["t"].as_u64().unwrap() as u32;
-  let bases: Vec<Vec<u8>> = vec![b"epoch".to_vec(), "caf\u{e9} ".as_bytes().to_vec(), vec![0x80], vec![0xff, 0xfe], vec![0, 0, 0, 254], vec![0xc3, 0x28], vec![]];
+  let bases: Vec<Vec<u8>> = vec![b"epoch".to_vec(), "caf\u{e9} ".as_bytes().to_vec(), vec![0x80], vec![0xff, 0xfe], vec![0, 0, 0, 254], vec![0xc3, 0x28], vec![], b"1".to_vec(), b"11".to_vec(), b"wk".to_vec(), b"wk1".to_vec()];
   let base = bases[case["b"].as_u64().unwrap() as usize % bases.len()].clone();
   let meas = b"https://example.com/a".to_vec();
   for as_epoch in [true, false] {
@@ -160,7 +160,40 @@ fn run_neighbour_contexts(cx: &mut CaseCx, case: &Value) {
     for t2 in [t + 1, t + 256, t + 65536, t << 8] {
       nbs.push((format!("threshold {} instead of {}", t2, t), m_a.clone(), e_a.clone(), t2));
     }
+    // the boundary between measurement and epoch shifted by 1..3 bytes in either direction (an unframed
+    // concatenation of the two merges these contexts with A's)
+    for k in 1..=3usize {
+      if e_a.len() >= k {
+        nbs.push((format!("boundary shifted: the first {} epoch byte(s) appended to the measurement", k), [&m_a[..], &e_a[..k]].concat(), e_a[k..].to_vec(), t));
+      }
+      if m_a.len() >= k {
+        nbs.push((format!("boundary shifted: the last {} measurement byte(s) prepended to the epoch", k), m_a[..m_a.len() - k].to_vec(), [&m_a[m_a.len() - k..], &e_a[..]].concat(), t));
+      }
+    }
+    // contexts that a variable-width framing of (epoch, threshold) would merge with A's: only where A's own
+    // (epoch, threshold) is one side of such a pair
+    if as_epoch {
+      for ((e1, t1), (e2, t2), how) in super::c04::framing_pairs() {
+        if e1 == e_a && t1 == t && t2 <= 300 {
+          nbs.push((how.clone(), m_a.clone(), e2.clone(), t2));
+        } else if e2 == e_a && t2 == t && t1 <= 300 {
+          nbs.push((how, m_a.clone(), e1, t1));
+        }
+      }
+    }
     for (how, m_n, e_n, t_n) in nbs {
+      // the neighbouring context has ANOTHER secret: otherwise its cohort, on reaching its own threshold, opens A's
+      // reports (and the other way round)
+      if t_n >= 1 && t_n <= 300 {
+        if let Some(nb) = make_sharing(&mut cx.scratch(), "neighbour", &m_n, &e_n, t_n, 0, 9000) {
+          cx.eval();
+          if nb.secret == a.secret {
+            cx.viol("C02/secret-shared-between-contexts", format!("the context of A (threshold {}) and a DIFFERENT context ({}; threshold {}) share one secret: whichever cohort reaches its own threshold first opens the other's reports although that one is still below its threshold", t, how, t_n), json!({"t": t, "A": {"measurement": hexs(&m_a), "epoch": hexs(&e_a)}, "other": {"measurement": hexs(&m_n), "epoch": hexs(&e_n), "threshold": t_n}, "relation": how}));
+            return;
+          }
+          cx.count("neighbour_secrets_differ", 1);
+        }
+      }
       let rnd = local_randomness(&m_n, &e_n, t_n);
       // k shares of the neighbour complete t-k shares of A, k = 1..t-1, in both orders
       for k in 1..t as usize {
@@ -1045,7 +1078,7 @@ pub fn spec() -> PropSpec {
         gen: |_| {
           let mut v = vec![];
           for t in [2u64, 3] {
-            for b in 0..7u64 {
+            for b in 0..11u64 {
               v.push(json!({"t": t, "b": b}));
             }
           }
